@@ -1,7 +1,7 @@
 (* C07: the task-wake invariant is preserved (proofs) *)
 From stdpp Require Import list numbers option.
 From RecordUpdate Require Import RecordUpdate.
-From L2 Require Import Model Base Own Jobs Shape DwInv Fut Sig Wake WakeInv WakeLem WakeStep1 Task.
+From L2 Require Import Model Base Own Jobs Shape DwInv Pool OpShape Fut Sig Wake WakeInv WakeLem WakeStep1 Task.
 #[global] Unset Lia Cache.
 
 Lemma cnts_app f a b : cnts f (a ++ b) = cnts f a + cnts f b. Proof. induction a; cbn; lia. Qed.
@@ -158,3 +158,50 @@ Proof.
       * apply elem_of_replicate in E as [-> _]. by apply elem_of_list_singleton in Hin as ->.
     + intros f Hf. cbn in Hf. lia.
 Qed.
+
+(* ---------- clause 1: the awaiting task's wake-up ---------- *)
+Definition cell (s : state) (c f : nat) : Prop := (getf s f).(res) = FNone /\ (getf s f).(fwaker) = Some (WTask c).
+Lemma tw_trans s s' c f :
+  (tokb s c = true -> tokb s' c = true) ->
+  (posb (np (is_unpark c) s) = true -> posb (np (is_unpark c) s') = true \/ tokb s' c = true) ->
+  (posb (np (is_wake (WTask c)) s) = true -> posb (np (is_wake (WTask c)) s') = true \/ posb (np (is_unpark c) s') = true) ->
+  (cell s c f -> cell s' c f \/ posb (np (is_wake (WTask c)) s') = true) ->
+  tw s c f = true -> tw s' c f = true.
+Proof.
+  intros Ht Hu Hw Hc. unfold tw, cell in *. rewrite !orb_true_iff, !andb_true_iff, !bool_decide_eq_true.
+  intros [[[H|H]|H]|[H1 H2]].
+  - left; left; left. by apply Ht.
+  - destruct (Hu H); [left; left; by right|left; left; by left].
+  - destruct (Hw H); [left; by right|left; left; by right].
+  - destruct (Hc (conj H1 H2)) as [[? ?]|?]; [by right|left; by right].
+Qed.
+Definition isaw (fr : frame) : bool := match fr with FAwRet _ | FPark _ => true | _ => false end.
+Lemma twf_noaw s c p st : cntf isaw st = 0 -> twf s c p st = true.
+Proof. revert p; induction st as [|y r IH]; intros p; cbn; [done|]. destruct y; cbn; try (intros; by apply IH); lia. Qed.
+Lemma isaw_opfr st : cntf opfr st = 0 -> cntf isaw st = 0.
+Proof. induction st as [|y r IH]; cbn; [done|]. destruct y; cbn; try done; lia. Qed.
+(* changing the state and the frame above *)
+Lemma twf_change s s' c p p' st :
+  (forall f, inprog_for p f = true -> inprog_for p' f = true) ->
+  (forall f, FAwRet f ∈ st \/ FPark f ∈ st -> tw s c f = true -> tw s' c f = true) ->
+  twf s c p st = true -> twf s' c p' st = true.
+Proof.
+  revert p p'; induction st as [|y r IH]; intros p p' Hp Hs; cbn [twf]; [done|].
+  destruct y; try (apply IH; [done|intros ?f [?|?] ?; apply Hs; first [done|left; by right|right; by right] ]).
+  - rewrite !orb_true_iff. intros [H|H]; [left; by apply Hp|right; apply Hs; [left; left|done] ].
+  - apply Hs. right; left.
+Qed.
+Lemma twf_update s s' a old new :
+  stacks s !! a = Some old -> stacks s' = <[a := new]> (stacks s) ->
+  twf s' a None new = true ->
+  (forall c f, c <> a -> awaits s c f -> tw s c f = true -> tw s' c f = true) ->
+  (forall c st, stacks s !! c = Some st -> twf s c None st = true) ->
+  forall c st, stacks s' !! c = Some st -> twf s' c None st = true.
+Proof.
+  intros Ha Hs Hnew Hstab HI c st Hc. rewrite Hs in Hc. destruct (decide (c = a)) as [->|Hne].
+  - rewrite list_lookup_insert in Hc by (by eapply lookup_lt_Some). by injection Hc as <-.
+  - rewrite list_lookup_insert_ne in Hc by done. eapply (twf_change s s' c None None); [done| |by apply HI].
+    intros f Hin. apply Hstab; [done|]. by exists st.
+Qed.
+Lemma cell_same (s s' : state) c f : s'.(futs) = s.(futs) -> cell s c f -> cell s' c f.
+Proof. intros H. unfold cell. by rewrite (getf_futs s' s f H). Qed.
